@@ -457,15 +457,17 @@ func c16R7(e *Engine) {
 			continue
 		}
 		cmpOK, incOK := false, false
+		errOnTrue := true
 		var cmp *ssa.BinOp
 		instrs(vf, func(in ssa.Instruction) {
 			b, ok := in.(*ssa.BinOp)
 			if !ok {
 				return
 			}
-			if n, isC := constInt(b.Y); isC && n == 25 && b.Op == token.GTR {
+			if n, isC := constInt(b.Y); isC && n == 25 && (b.Op == token.GTR || b.Op == token.LEQ) {
 				if _, isPhi := b.X.(*ssa.Phi); isPhi {
 					cmpOK, cmp = true, b
+					errOnTrue = b.Op == token.GTR // `total <= 25` is the accepting test: the error is on its false edge
 				}
 			}
 			if n, isC := constInt(b.X); isC && n == 25 && b.Op == token.LSS {
@@ -508,7 +510,7 @@ func c16R7(e *Engine) {
 					continue
 				}
 				for _, cd := range condsAt(r.Block()) {
-					if cd.V == ssa.Value(cmp) && cd.Val {
+					if cd.V == ssa.Value(cmp) && cd.Val == errOnTrue {
 						errEdge = true
 					}
 				}
